@@ -14,6 +14,7 @@ What is NOT a theorem here and is checked on every implementation result by `har
     model can only say that the owner is part of the node key and never changes (`resolved_single_owner`, `KeyPay`).
 -/
 import SqlLineage.Proofs.PathLemmas
+import SqlLineage.Proofs.BuildLemmas
 import SqlLineage.Model.Assemble
 
 namespace SqlLineage.Props.C06
@@ -167,6 +168,38 @@ theorem wf_addWriteColumns (g : LGraph) (cols : List Column) (h : WF g) : WF (ad
 
 theorem wf_compose (g h : LGraph) (hg : WF g) (hh : WF h) : WF (g.compose h) := Paths.wf_compose g h hg hh
 theorem wf_removeNode (g : LGraph) (n : Node) (h : WF g) : WF (g.removeNode n) := Paths.wf_removeNode g n h
+
+/-! ### the combined graph of a script
+
+The assembler (`Assemble.build`, model of `SQLLineageHolder._build_digraph`) preserves both invariants, so the path clauses hold for
+the combined graph of EVERY script whose statement holders satisfy them (the holders themselves come from `Model/Walk.lean`, built
+from the holder operations above; that every holder the walk returns satisfies `WF`/`ColOut` is not proved — it is what the
+enumeration correspondence and the monitor observe on the implementation). -/
+
+/-- every graph the assembler returns from well‑formed statement holders is well‑formed (DROP and RENAME included) -/
+theorem build_wf (prov : Assemble.Prov) (hs : List LGraph) (g : LGraph) (hhs : ∀ h ∈ hs, WF h)
+    (hr : Assemble.build prov hs = .ok g) : WF g :=
+  buildWith_wf id prov hs g hhs hr
+
+/-- PARTIAL (`ColOut` through the assembler): proved for scripts without RENAME statements.  Missing for the full statement: the
+    relabelling step `relabel old new` keeps `ColOut` when `old`/`new` are dataset nodes, which needs the edge‑type bookkeeping of
+    `Graph.relabel` (last‑writer‑wins over the merged parallel edges). -/
+theorem build_colOut_partial (prov : Assemble.Prov) (hs : List LGraph) (g : LGraph)
+    (hhs : ∀ h ∈ hs, ColOut h ∧ Assemble.stmtRename h = []) (hr : Assemble.build prov hs = .ok g) : ColOut g :=
+  buildWith_colOut id prov hs g hhs hr
+
+/-- the reported paths of a script's combined graph are exactly the simple root‑to‑leaf chains with a hop -/
+theorem script_paths_exact (prov : Assemble.Prov) (hs : List LGraph) (g : LGraph) (hhs : ∀ h ∈ hs, WF h)
+    (hr : Assemble.build prov hs = .ok g) (p : List Node) :
+    p ∈ columnLineage g ↔
+      ∃ a ∈ roots g, ∃ b ∈ leaves g, p.head? = some a ∧ p.getLast? = some b ∧ IsChain g p ∧ p.Nodup ∧ p.length > 1 :=
+  column_lineage_exact g (build_wf prov hs g hhs hr) p
+
+/-- … and (no RENAME) consist of column nodes joined by LINEAGE edges only -/
+theorem script_paths_columns_only_partial (prov : Assemble.Prov) (hs : List LGraph) (g : LGraph)
+    (hhs : ∀ h ∈ hs, ColOut h ∧ Assemble.stmtRename h = []) (hr : Assemble.build prov hs = .ok g)
+    (p : List Node) (hp : p ∈ columnLineage g) : ∀ n ∈ p, n.isCol = true :=
+  columns_only g (build_colOut_partial prov hs g hhs hr) p hp
 
 /-! ### a resolved column has exactly one owner
 
@@ -329,6 +362,24 @@ theorem gEx_colOut : ColOut gEx := by
   rw [this]
   exact colOut_addColumnLineage _ _ _ _ (colOut_addColumnLineage _ _ _ _ (colOut_addColumnLineage _ _ _ _ colOut_empty e1) e2) e3
 
+/-- statement holders of `insert into mid select a from src` / `insert into tgt select a as b from mid` built with the holder API -/
+def mkHolder (r w : String) (src tgt : Column) : LGraph :=
+  match addColumnLineage (addWrite (addRead Graph.empty (tbl r) (some r)) (tbl w)) src tgt with
+  | .ok g => g
+  | .error _ => Graph.empty
+def hEx1 : LGraph := mkHolder "src" "mid" (colOf "src" "a") (colOf "mid" "a")
+def hEx2 : LGraph := mkHolder "mid" "tgt" (colOf "mid" "a") (colOf "tgt" "b")
+
+theorem mkHolder_colOut (r w : String) (src tgt : Column) : ColOut (mkHolder r w src tgt) := by
+  unfold mkHolder
+  have h0 : ColOut (addWrite (addRead Graph.empty (tbl r) (some r)) (tbl w)) :=
+    Paths.colOut_addWrite _ _ _ (Paths.colOut_addRead _ _ _ _ Paths.colOut_empty)
+  cases h : addColumnLineage (addWrite (addRead Graph.empty (tbl r) (some r)) (tbl w)) src tgt with
+  | ok g => exact colOut_addColumnLineage _ _ _ _ h0 h
+  | error e => exact Paths.colOut_empty
+theorem hEx1_colOut : ColOut hEx1 := mkHolder_colOut _ _ _ _
+theorem hEx2_colOut : ColOut hEx2 := mkHolder_colOut _ _ _ _
+
 -- the hypotheses of every implication above are met by a path of `gEx` with two hops
 example : [(colOf "src" "a").key, (colOf "mid" "a").key, (colOf "tgt" "b").key] ∈ columnLineage gEx := by decide
 example : WF gEx := by decide
@@ -343,6 +394,28 @@ example : [(colOf "src" "a").key, (colOf "mid" "a").key, (colOf "tgt" "b").key] 
 -- resolved_single_owner / KeyPay on a stored node
 example : ∃ pn, (colOf "mid" "a").parents = [(tbl "mid", pn)] := resolved_single_owner _ "<default>.mid.a" _ rfl
 example : gEx.payload (colOf "mid" "a").key = some (.col (colOf "mid" "a")) := by decide
+-- build_wf / build_colOut_partial: two statement holders (src → mid, mid → tgt) assembled by the model's `build`
+example : ∃ g, Assemble.build Assemble.Prov.none [hEx1, hEx2] = .ok g ∧ WF g ∧ ColOut g ∧
+    columnLineage g = [[(colOf "src" "a").key, (colOf "mid" "a").key, (colOf "tgt" "b").key]] := by
+  have hb : ∃ g, Assemble.build Assemble.Prov.none [hEx1, hEx2] = .ok g := by
+    cases h : Assemble.build Assemble.Prov.none [hEx1, hEx2] with
+    | ok g => exact ⟨g, rfl⟩
+    | error e =>
+      have : (match Assemble.build Assemble.Prov.none [hEx1, hEx2] with | .ok _ => true | .error _ => false) = true := by
+        decide +kernel
+      rw [h] at this; cases this
+  obtain ⟨g, hg⟩ := hb
+  refine ⟨g, hg, build_wf _ _ g ?_ hg, build_colOut_partial _ _ g ?_ hg, ?_⟩
+  · intro h hh; simp only [List.mem_cons, List.mem_nil_iff, or_false] at hh
+    rcases hh with rfl | rfl <;> decide +kernel
+  · intro h hh; simp only [List.mem_cons, List.mem_nil_iff, or_false] at hh
+    rcases hh with rfl | rfl
+    · exact ⟨hEx1_colOut, by decide +kernel⟩
+    · exact ⟨hEx2_colOut, by decide +kernel⟩
+  · have : (match Assemble.build Assemble.Prov.none [hEx1, hEx2] with
+        | .ok g => decide (columnLineage g = [[(colOf "src" "a").key, (colOf "mid" "a").key, (colOf "tgt" "b").key]])
+        | .error _ => false) = true := by decide +kernel
+    rw [hg] at this; simpa using this
 -- a graph where the search on the full graph matters: the table node has HAS_COLUMN edges into the columns, yet no path leaves the columns
 example : (gEx.outEdges (.ds (tbl "mid"))).length = 2 := by decide
 
